@@ -275,10 +275,15 @@ fn key_class(d: &str) -> &str {
     }
 }
 
-fn check_test(t: &Test, snaps: &BTreeMap<String, SnapMap>) -> Option<Viol> {
+/// `tolerant`: a process was killed from outside (crash injection), so
+/// snapshots may be missing; every snapshot that exists is still checked.
+fn check_test(t: &Test, snaps: &BTreeMap<String, SnapMap>, tolerant: bool) -> Option<Viol> {
     let k = t.id;
     let get = |l: &str| snaps.get(&format!("{l}{k}"));
     let (Some(b), Some(c)) = (get("B"), get("C")) else {
+        if tolerant {
+            return None;
+        }
         return Some((
             "trace".into(),
             "trace".into(),
@@ -294,7 +299,7 @@ fn check_test(t: &Test, snaps: &BTreeMap<String, SnapMap>) -> Option<Viol> {
     if t.kind == Kind::Async {
         if let Some(d) = get("D") {
             parents.push(("D", d));
-        } else {
+        } else if !tolerant {
             return Some(("trace".into(), "trace".into(), format!("snapshot D{k} missing")));
         }
     }
@@ -319,6 +324,9 @@ fn check_test(t: &Test, snaps: &BTreeMap<String, SnapMap>) -> Option<Viol> {
     }
     for (label, second) in entries {
         let Some(e) = get(label) else {
+            if tolerant {
+                continue;
+            }
             return Some(("trace".into(), "trace".into(), format!("snapshot {label}{k} missing")));
         };
         // expected entry state derived from B
@@ -398,6 +406,10 @@ fn check_test(t: &Test, snaps: &BTreeMap<String, SnapMap>) -> Option<Viol> {
 }
 
 fn check_run(c: &Case, obs: &Observed) -> Option<Viol> {
+    check_run_opt(c, obs, false)
+}
+
+fn check_run_opt(c: &Case, obs: &Observed, tolerant: bool) -> Option<Viol> {
     if let Some(v) = check_liveness(obs) {
         return Some(v);
     }
@@ -441,9 +453,24 @@ fn check_run(c: &Case, obs: &Observed) -> Option<Viol> {
         walk(t, &mut all);
     }
     for t in all {
-        if let Some(v) = check_test(t, &snaps) {
+        if let Some(v) = check_test(t, &snaps, tolerant) {
             return Some(v);
         }
+    }
+    if tolerant {
+        // the main shell is never killed: its own snapshots exist even if
+        // every child was
+        for t in &c.tests {
+            if t.in_function {
+                continue;
+            }
+            for l in ["B", "C"] {
+                if !snaps.contains_key(&format!("{l}{}", t.id)) {
+                    return Some(("trace".into(), "trace".into(), format!("snapshot {l}{} of the main shell is missing", t.id)));
+                }
+            }
+        }
+        return None;
     }
     // positive control: data written by the children did arrive
     if let Some(exp) = expected_stdout(c)
@@ -489,6 +516,10 @@ fn draw_config(rng: &mut Rng, k: u32) -> SimConfig {
         preempt_permille: if k == 0 { 0 } else { *rng.pick(&[0u32, 50, 200, 500]) },
         ..Default::default()
     }
+}
+
+fn run_crash(c: &Case, cfg: &SimConfig, decider: Decider) -> Observed {
+    crate::shellrun::run_script_with(&spec_of(c), cfg, decider, |_| {}, crate::shellrun::crash_env(cfg))
 }
 
 fn run_one(c: &Case, cfg: &SimConfig, decider: Decider) -> (Observed, Option<Viol>) {
@@ -577,11 +608,39 @@ impl Prop for C08 {
                 return Some(failure(&case, &cfg, &obs, v));
             }
         }
+        // crash injection: children are killed (SIGKILL from outside) at seeded
+        // instants; whatever a child had done by then must not show in the
+        // parent, and every snapshot that was taken still obeys the rules
+        let crash_runs = match tier {
+            Tier::Quick => 1,
+            Tier::Thorough => 3,
+        };
+        for j in 0..crash_runs {
+            let mut cfg = draw_config(&mut rng, 1 + j);
+            cfg.crash_permille = *rng.pick(&[20u32, 60, 150]);
+            cfg.crash_max = rng.range(1, 3);
+            let obs = run_crash(&case, &cfg, Decider::record(Rng::stream(seed, 890 + j as u64, index)));
+            stats.note_run(case_hash ^ 0xC4A5, &obs.outcome, obs.faults_fired);
+            stats.add_counters(&obs.counters);
+            stats.digest(index, obs_digest(&obs));
+            if let Some(mut v) = check_run_opt(&case, &obs, true) {
+                stats.count("violating_runs", 1);
+                v.1 = format!("crash:{}", v.1);
+                return Some(failure(&case, &cfg, &obs, v));
+            }
+        }
         None
     }
 
     fn rerun(&self, case: &Value, cfg: &SimConfig, decisions: &[Decision]) -> Option<Failure> {
         let c: Case = serde_json::from_value(case.clone()).ok()?;
+        if cfg.crash_permille > 0 {
+            let obs = run_crash(&c, cfg, Decider::replay(decisions));
+            return check_run_opt(&c, &obs, true).map(|mut v| {
+                v.1 = format!("crash:{}", v.1);
+                failure(&c, cfg, &obs, v)
+            });
+        }
         let (obs, v) = run_one(&c, cfg, Decider::replay(decisions));
         v.map(|v| failure(&c, cfg, &obs, v))
     }
